@@ -37,7 +37,7 @@ CHECK = {
          "shards": {"quick": 16, "thorough": 16}, "deadline": {"quick": 100, "thorough": 1200},
          "ldflags": ["-ldl"]},
         {"name": "tsan", "harness": "c07_streams", "flavour": "tsan",
-         "shards": {"quick": 16, "thorough": 16}, "deadline": {"quick": 150, "thorough": 1200},
+         "shards": {"quick": 16, "thorough": 16}, "deadline": {"quick": 240, "thorough": 1200},
          "env": {"TSAN_OPTIONS": "halt_on_error=0 report_signal_unsafe=0 second_deadlock_stack=1 "
                                  "log_path=tsan_report history_size=4 exitcode=0"}},
     ],
